@@ -13,7 +13,8 @@ os.close(fd)
 env = {k: v for k, v in os.environ.items() if not k.startswith("THAILINT_VERIF")}
 cmd = ["/venv/bin/python", "-m", "pytest", "-ra", "-q", "-p", "no:cacheprovider", "--timeout=900",
        "--continue-on-collection-errors", f"--junitxml={junit}"]
-p = subprocess.run(cmd, cwd="/repo", env=env, capture_output=True, text=True)
+repo = sys.argv[1] if len(sys.argv) > 1 else "/repo"
+p = subprocess.run(cmd, cwd=repo, env=env, capture_output=True, text=True)
 print(p.stdout[-1500:])
 passed = set()
 for tc in ET.parse(junit).getroot().iter("testcase"):
